@@ -20,7 +20,7 @@ from . import engine as E
 from .models_sqlite import SQLITE_DONE, SQLITE_CONSTRAINT, SQLITE_ERROR
 
 M64 = (1 << 64) - 1
-KEYWORDS = {'SELECT', 'FROM', 'WHERE', 'AND', 'OR', 'NOT', 'NULL', 'IS', 'IN', 'INSERT', 'INTO', 'VALUES', 'UPDATE', 'SET', 'DELETE', 'REPLACE', 'ORDER', 'BY',
+KEYWORDS = {'IGNORE', 'SELECT', 'FROM', 'WHERE', 'AND', 'OR', 'NOT', 'NULL', 'IS', 'IN', 'INSERT', 'INTO', 'VALUES', 'UPDATE', 'SET', 'DELETE', 'REPLACE', 'ORDER', 'BY',
             'LIMIT', 'DESC', 'ASC', 'AS', 'CREATE', 'TRIGGER', 'TABLE', 'VIEW', 'INDEX', 'BEFORE', 'AFTER', 'INSTEAD', 'OF', 'ON', 'FOR', 'EACH', 'ROW', 'WHEN',
             'BEGIN', 'END', 'UNIQUE', 'PRIMARY', 'KEY', 'AUTOINCREMENT', 'CONSTRAINT', 'FOREIGN', 'REFERENCES', 'DEFAULT', 'CASCADE', 'RESTRICT',
             'JOIN', 'INNER', 'UNION', 'ALL', 'LIKE'}
@@ -190,11 +190,13 @@ class Parser:
     def statement(s):
         if s.at_kw('SELECT'): return s.select()
         if s.at_kw('INSERT', 'REPLACE'):
-            replace = False
+            replace = False; ignore = False
             if s.accept('kw', 'REPLACE'): replace = True
             else:
                 s.expect('kw', 'INSERT')
-                if s.accept('kw', 'OR'): s.expect('kw', 'REPLACE'); replace = True
+                if s.accept('kw', 'OR'):
+                    if s.accept('kw', 'IGNORE'): ignore = True
+                    else: s.expect('kw', 'REPLACE'); replace = True
             s.expect('kw', 'INTO'); table = s.qname()
             cols = None
             if s.accept('op', '('):
@@ -202,14 +204,14 @@ class Parser:
                 while s.accept('op', ','): cols.append(s.ident().lower())
                 s.expect('op', ')')
             if s.at_kw('SELECT'):
-                return {'k': 'insert', 'table': table, 'cols': cols, 'tuples': None, 'select': s.select(), 'replace': replace}
+                return {'k': 'insert', 'table': table, 'cols': cols, 'tuples': None, 'select': s.select(), 'replace': replace, 'ignore': ignore}
             s.expect('kw', 'VALUES'); tuples = []
             while True:
                 s.expect('op', '('); vals = [s.expr()]
                 while s.accept('op', ','): vals.append(s.expr())
                 s.expect('op', ')'); tuples.append(vals)
                 if not s.accept('op', ','): break
-            return {'k': 'insert', 'table': table, 'cols': cols, 'tuples': tuples, 'replace': replace}
+            return {'k': 'insert', 'table': table, 'cols': cols, 'tuples': tuples, 'replace': replace, 'ignore': ignore}
         if s.accept('kw', 'UPDATE'):
             table = s.qname()
             s.expect('kw', 'SET'); sets = []
@@ -821,14 +823,19 @@ def install_rel(eng, cfg):
                 newb = trow(tdef, dict(row, **({pk: ('int', (rid if explicit else -1) & M64)} if pk else {})))
                 fire(ctx, 'BEFORE', 'INSERT', tname, newb, None)
                 if pk: row[pk] = ('int', rid & M64)
+                # INSERT OR IGNORE: a row that conflicts with a key or UNIQUE constraint is skipped - not counted, last_insert_rowid() untouched, no AFTER trigger
+                skipped = False
                 if rid in t:
-                    if not stmt['replace']: raise Abort(SQLITE_CONSTRAINT, 'UNIQUE constraint failed: %s.%s' % (tdef['name'], pk))
-                    del t[rid]
-                while True:
+                    if stmt.get('ignore'): skipped = True
+                    elif not stmt['replace']: raise Abort(SQLITE_CONSTRAINT, 'UNIQUE constraint failed: %s.%s' % (tdef['name'], pk))
+                    else: del t[rid]
+                while not skipped:
                     bad = check_unique(ctx, tdef, rid, row)
                     if not bad: break
+                    if stmt.get('ignore'): skipped = True; break
                     if not stmt['replace']: raise Abort(SQLITE_CONSTRAINT, 'UNIQUE constraint failed: %s(%s)' % (tdef['name'], ','.join(bad[0])))
                     del t[bad[1]]
+                if skipped: continue
                 t[rid] = row; n += 1
                 ctx.db.last_rowid = rid; pending_seq = max(pending_seq, rid)
                 fire(ctx, 'AFTER', 'INSERT', tname, trow(tdef, row), None)
